@@ -1,6 +1,8 @@
 package c17
 
 import (
+	"verifharness/kit"
+
 	"github.com/voedger/voedger/pkg/appdef"
 )
 
@@ -24,3 +26,7 @@ func Canon(d Dump) Dump { return canon(d) }
 
 // DumpType dumps one type
 func DumpType(t appdef.IType) (DItem, bool) { return dumpType(t) }
+
+// Mutations lists the kinds of the malformed stream; MutateKind applies one of them (false: not applicable)
+func Mutations() []string                               { return mutations }
+func MutateKind(r *kit.Rng, a Schema, kind string) bool { return apply(r, a, kind) }
